@@ -14,14 +14,23 @@ def run_unit(name, spec, repo, workdir, tier="quick", seed=0, prop=None):
     t0 = time.time()
     res = {"unit": name, "engine": "kani", "status": "undecided", "harnesses": [], "reason": "", "trusted": list(spec.get("trusted", [])),
            "checker_cmd": "", "solver_ms": 0}
-    src = os.path.join(VERIF, spec["crate"])
-    crate = os.path.join(workdir, "crate")
-    if os.path.exists(crate):
-        shutil.rmtree(crate)
     os.makedirs(workdir, exist_ok=True)
-    shutil.copytree(src, crate, ignore=shutil.ignore_patterns("target", "Cargo.lock"))
+    if spec.get("incrate"):
+        # in-crate harnesses: mounted by the cfg(kani) hook of the repo under test; run from the crate directory itself
+        crate = os.path.join(repo, spec["incrate"])
+        hook = os.path.join(crate, "src", "lib.rs")
+        if not (os.path.exists(hook) and "verif_kani" in open(hook).read()):
+            res["reason"] = "in-crate hook (cfg(kani) mod verif_kani) not present in %s" % hook
+            res["wall_s"] = time.time() - t0
+            return res
+    else:
+        src = os.path.join(VERIF, spec["crate"])
+        crate = os.path.join(workdir, "crate")
+        if os.path.exists(crate):
+            shutil.rmtree(crate)
+        shutil.copytree(src, crate, ignore=shutil.ignore_patterns("target", "Cargo.lock"))
     # re-point path dependencies and #[path] mounts at the repo under test
-    for root, _, files in os.walk(crate):
+    for root, _, files in (os.walk(crate) if not spec.get("incrate") else []):
         for fn in files:
             if fn.endswith((".toml", ".rs")):
                 p = os.path.join(root, fn)
@@ -38,7 +47,7 @@ def run_unit(name, spec, repo, workdir, tier="quick", seed=0, prop=None):
             res["wall_s"] = time.time() - t0
             return res
     lock = os.path.join(repo, "Cargo.lock")
-    if os.path.exists(lock):
+    if os.path.exists(lock) and not spec.get("incrate"):
         shutil.copy(lock, os.path.join(crate, "Cargo.lock"))
     hs = spec["harnesses"]
     selected = {h: m for h, m in hs.items() if (prop is None or prop in m.get("props", spec["props"]))
